@@ -1,10 +1,21 @@
 """C06 — the tool and coolant can always be switched off."""
-import os, sys
+import os, re, sys
 sys.path.insert(0, os.path.dirname(os.path.abspath(__file__)))
 from builder_check import *  # noqa
 
 PID = "C06"
 SHUT = ("tool_off", "power_off", "coolant_off", "emergency")
+
+
+def _carries(raw, message):
+    """the comment line shows the message: its pieces between line breaks (which a comment cannot contain), in order"""
+    at = 0
+    for part in re.split(r"[\r\n]+", message):
+        at = raw.find(part, at)
+        if at < 0:
+            return False
+        at += len(part)
+    return True
 
 
 def oracle(dp, cmds, steps, upto):
@@ -27,7 +38,7 @@ def oracle(dp, cmds, steps, upto):
         else:
             last = ("M", 30) if c[2] else ("M", 0)
             ok = (len(toks) == 4 and None not in toks and codes[0] == [("M", 5)] and codes[1] == [("M", 9)]
-                  and toks[2] == [] and codes[3] == [last] and c[1] in s["raw"][2]
+                  and toks[2] == [] and codes[3] == [last] and _carries(s["raw"][2], c[1])
                   and not sn["tool_on"] and not sn["cool_on"])
             if not ok:
                 what = "emergency_halt emitted %r, tool=%s coolant=%s" % (s["raw"], sn["tool_on"], sn["cool_on"])
@@ -54,8 +65,8 @@ def gen_cases(run):
             out.append(c)
             if r.random() < 0.25:
                 k = r.choice(SHUT)
-                out.append((k,) if k != "emergency" else ("emergency", r.choice(["door", "limit X", "e-stop pressed"]), r.random() < 0.5))
-        out.append(("emergency", "end", r.random() < 0.5))
+                out.append((k,) if k != "emergency" else ("emergency", r.choice(EMERGENCY_MESSAGES), r.random() < 0.5))
+        out.append(("emergency", r.choice(["end", "", "the\nend"]), r.random() < 0.5))
         cases.append((r.choice([0, 2, 5]), out))
     return cases
 
